@@ -11,7 +11,7 @@ use proptest::prelude::*;
 use proptest::sample::select;
 
 /// (rcode, edns, other additional records, a question?, flags)
-type BuildIn = (u16, AEdns, Vec<ARecord>, Option<AQuestion>, u16);
+type BuildIn = (u16, AEdns, Vec<ARecord>, Option<AQuestion>, u16, Vec<ARecord>, Vec<ARecord>);
 
 fn build_strategy(_t: Tier) -> BoxedStrategy<BuildIn> {
     (
@@ -20,12 +20,14 @@ fn build_strategy(_t: Tier) -> BoxedStrategy<BuildIn> {
         vec(gen::arecord(), 0..=3),
         proptest::option::of(gen::aquestion()),
         gen::flag_bits(),
+        vec(gen::arecord(), 0..=2),
+        vec(gen::arecord(), 0..=2),
     )
         .boxed()
 }
 
 fn check_build(input: &BuildIn, case: &mut Case) -> Result<(), Fail> {
-    let (rcode, edns, others, q, flags) = input;
+    let (rcode, edns, others, q, flags, answers, authorities) = input;
     case.nontrivial = !edns.options.is_empty() || *rcode > 15 || !others.is_empty();
     if *rcode > 15 {
         case.class("extended-rcode");
@@ -41,8 +43,12 @@ fn check_build(input: &BuildIn, case: &mut Case) -> Result<(), Fail> {
         edns: Some(edns.clone()),
         questions: q.iter().cloned().collect(),
         additionals: others.clone(),
-        ..Default::default()
+        answers: answers.clone(),
+        authorities: authorities.clone(),
     });
+    if !authorities.is_empty() {
+        case.class("with-authority-records");
+    }
     let pk = lib("build", || build(&p))?.map_err(|e| Fail::new("harness:build", e))?;
     for compressed in [false, true] {
         let out = if compressed { ser_compressed(&pk) } else { ser_plain(&pk) }.map_err(|f| Fail::new("c09:build-failed", f.msg))?;
@@ -151,7 +157,7 @@ fn check_parse(input: &ParseIn, case: &mut Case) -> Result<(), Fail> {
 pub fn def() -> CheckDef {
     CheckDef {
         id: "C09",
-        rule: "proptest. Build side: named rcode (BADVERS included) x EDNS (udp 0..65535, version 0..255, option lists with any code / 0..600 bytes) x 0..3 other additional records x optional question x flag subsets, plain and compressed; an independent walker checks: exactly one TYPE 41 record, in the additional section, counted once in ARCOUNT, owner = single root octet, CLASS = udp size, TTL octets = [rcode>>4, version, 0, 0], RDATA = concatenated (code,len,value), header nibble = rcode&15, and the reference decoder reads the model back. Parse side: reference-encoded messages with the OPT record at any index of the additional section, arbitrary DO/Z bits, named and unnamed 12-bit response codes, foreign compression; oracle: opt() = (udp, version, options in order), no TYPE 41 left in additional_records, others in order, rcode() = the named variant for named values (Reserved otherwise). Non-trivial = options non-empty or extended rcode != 0 or other additional records present",
+        rule: "proptest. Build side: named rcode (BADVERS included) x EDNS (udp 0..65535, version 0..255, option lists with any code / 0..600 bytes) x 0..3 other additional records x 0..2 answer and 0..2 authority records x optional question x flag subsets, plain and compressed; an independent walker checks: exactly one TYPE 41 record, in the additional section, counted once in ARCOUNT, owner = single root octet, CLASS = udp size, TTL octets = [rcode>>4, version, 0, 0], RDATA = concatenated (code,len,value), header nibble = rcode&15, and the reference decoder reads the model back. Parse side: reference-encoded messages with the OPT record at any index of the additional section, arbitrary DO/Z bits, named and unnamed 12-bit response codes, foreign compression; oracle: opt() = (udp, version, options in order), no TYPE 41 left in additional_records, others in order, rcode() = the named variant for named values (Reserved otherwise). Non-trivial = options non-empty or extended rcode != 0 or other additional records present",
         assumptions: vec!["OPT TTL layout transcribed from RFC 6891 section 6.1.3", "unnamed response codes are only required to show as Reserved"],
         sections: vec![
             Box::new(PropSection { name: "build", rule: "EDNS on the wire", strategy: build_strategy, cases: (200_000, 2_000_000), check: check_build }),
